@@ -102,6 +102,9 @@ def run_density(case):
         if np.isfinite(bnd):
             pts += [bnd, np.nextafter(bnd, np.inf), np.nextafter(bnd, -np.inf), bnd + span * 10, bnd - span * 10]
     const = None
+    if np.isfinite(lo) or np.isfinite(hi):
+        # not-a-number lies in no interval: a prior with a bounded support gives it density 0
+        pts = pts + [float("nan")]
     for x in pts:
         x = float(x)
         ln, pr = p.lnprob(x), p.prob(x)
